@@ -55,6 +55,7 @@ def ensure_makefile():
 def coq_make(targets, timeout=1500):
     with Lock("coq"):
         ensure_makefile()
+        os.makedirs(os.path.join(OCAML, "extracted"), exist_ok=True)   # git-ignored: absent in a fresh checkout
         rc, out = sh(["make", f"-j{NPROC}"] + targets, cwd=COQ, timeout=timeout)
     return rc == 0, out
 
